@@ -125,6 +125,11 @@ def quantile_(array, inv_idx, *, q, axis, skipna, group_idx, dtype=None, out=Non
     result = _lerp(loval, hival, t=gamma, out=out, dtype=dtype)
     if not skipna and np.any(nanmask):
         result[..., nanmask] = np.nan
+    if skipna:
+        # groups without a single valid member (actual_sizes was decremented above)
+        allnanmask = actual_sizes < 0
+        if np.any(allnanmask):
+            result[..., allnanmask] = np.nan
     return result
 
 
